@@ -136,6 +136,22 @@ fn do_read<T: Readable>(tx: &T, ks: &Keyspace, conc: &Concretizer, cell: (u64, u
             let p = collect(conc, cell, tx.range::<Vec<u8>, _>(ks, ..=hi))?;
             Ok(json!(p.iter().map(|(k, v)| json!([k, v])).collect::<Vec<_>>()))
         }
+        "range_hi" => {
+            // keys >= arg
+            let lo = conc.key(arg);
+            let p = collect(conc, cell, tx.range::<Vec<u8>, _>(ks, lo..))?;
+            Ok(json!(p.iter().map(|(k, v)| json!([k, v])).collect::<Vec<_>>()))
+        }
+        "range_pt" => {
+            // the single-point range arg..=arg (through both spellings of the bounds)
+            let k = conc.key(arg);
+            let p = if variant % 2 == 0 {
+                collect(conc, cell, tx.range::<Vec<u8>, _>(ks, k.clone()..=k))?
+            } else {
+                collect(conc, cell, tx.range::<Vec<u8>, _>(ks, (std::ops::Bound::Included(k.clone()), std::ops::Bound::Included(k))))?
+            };
+            Ok(json!(p.iter().map(|(k, v)| json!([k, v])).collect::<Vec<_>>()))
+        }
         _ => Err(format!("unknown read method {m}")),
     }
 }
